@@ -14,19 +14,26 @@ RULE = ('histories of 8-40 operations over a growing table of related stream obj
         'imol[...] = v, scale, F_mol, empty, link_with with all flag combinations, unlink, copy_like, copy_flow, '
         'copy_thermal_condition, copy_phase, mix_from with and without energy balance, reset_cache, property-package '
         'reset between three packages of which two share the Chemicals object and differ only in their property functions); '
-        'one case in eight is scripted: either material moved between the phases of a MultiStream (directly or through its '
+        'reads of the per-chemical volumetric flows `vol` (through indexer.by_volume and the _data_cache dict, with stub '
+        'Chemical.V handles that depend on phase and T) are interleaved as well; one case in eight is scripted: two streams in '
+        'different phases linked with partial flag combinations and vol read on both in either order, or a stream and its '
+        'copy / flow proxy / proxy / phase view diverging with the same properties read on both sides back to back, or material moved between the phases of a MultiStream (directly or through its '
         'phase views) at constant T, P and bit-identical overall composition, or a switch between the two packages sharing '
         'their Chemicals, each with the same properties read before and after; the property package is a stub Mixture whose values are an affine dyadic function, with phase-dependent composition weights, of '
         '(package, name, phase, composition, T, P), so a stale value is always visible; executed on the real classes and on '
-        'the Coq model; every read value, every raised exception class, the index of every returned object, and a final '
+        'the Coq model; every read value (scalars and vol vectors), every raised exception class, the index of every returned object, and a final '
         'snapshot of every object (class, phases, flows, T, P, memo contents, which objects share memo dict / key / '
         'thermal condition / flow row / indexer) are compared (values to 1e-9 relative, structure exactly). '
         'non-trivial = at least one read returned a value after a mutation; distinct = distinct case hash')
-ASSUMPTIONS = ['the property-package functions are deterministic functions of (phase, composition, T, P) that respect numeric '
+ASSUMPTIONS = ['C14_vol_fresh holds on histories in which MultiStreams that link flows and T/P have the same phase tuple (run_adm); '
+               'link_with does not check this and leaves _phases and data.rows of different lengths otherwise',
+               'the property-package functions are deterministic functions of (phase, composition, T, P) that respect numeric '
                'equality of their arguments (calc1_ext / calcx_ext); nothing else is assumed about them',
                'float rounding is not modelled: inputs are dyadic so flows, totals and branch decisions are exact; values compared to 1e-9',
                'the temperature found by the H setter inside mix_from(energy_balance=True) is an oracle value (any T)']
-TRUSTED = ['model coq/C14/Model.v is hand-written from thermosteam/_stream.py, _multi_stream.py, indexer.py, _phase.py; tie = correspondence check',
+TRUSTED = ['the per-chemical (T, P, phase)-keyed molar-volume memo inside VolumetricFlowDict (dictionary_view.py) is C11\'s; '
+           'here a volumetric view returns mol * 1000 * V_j(phase, T, P) for the phase container / phase and ThermalCondition it holds',
+           'model coq/C14/Model.v is hand-written from thermosteam/_stream.py, _multi_stream.py, indexer.py, _phase.py; tie = correspondence check',
            'operations outside the modelled subset (MultiStream receivers of mix_from/copy_like, cross-package copies, proxy of a '
            'phase view, phase/phases assignment on a MultiStream proxy that has no _streams yet, phases= that drops the current phase of a Stream) are replaced by no-ops in the correspondence; the '
            'direct oracle still executes them']
@@ -191,7 +198,7 @@ def scripted_transfer(rng, derived=False):
 def scripted_package_switch(rng, derived=False):
     """property-package change between packages that share the Chemicals object and differ only in their property
     functions, on a Stream, a MultiStream and its phase views, with the same properties read before and after"""
-    a, b = rng.choice([(0, 2), (2, 0)])
+    a, b = rng.choice([(0, 2), (2, 0), (0, 2), (2, 0), (0, 1), (1, 2)])
     new = gen_new(rng); new[5] = a
     multi = len(new[1]) > 1
     if multi:
@@ -212,8 +219,60 @@ def scripted_package_switch(rng, derived=False):
         ops.append(gen_op(rng, derived))
     return {'ops': ops}
 
+def scripted_link(rng, derived=False):
+    """two streams in different phases linked with a random flag combination (partial links included), volumetric
+    flows and scalar properties read on both in either order, then edits through either stream and reads again"""
+    pa, pb = rng.sample(PHS, 2)
+    ops = [['new', [[float(rng.choice([1, 2, 3, F(1, 2)])) for _ in range(3)]], pa, rng.choice(TS), rng.choice(PS), 0],
+           ['new', [[float(rng.choice([1, 2, 4, F(1, 4)])) for _ in range(3)]], pb, rng.choice(TS), rng.choice(PS), 0]]
+    if rng.random() < 0.4:
+        ops += [['rvol', rng.randrange(2)]]
+    flags = rng.choice([(True, False, True), (True, False, True), (True, True, True), (True, False, False), (False, False, True),
+                        (True, True, False), (False, True, True)])
+    ops.append(['link', 0, 1, flags[0], flags[1], flags[2]])
+    def reads():
+        out = []
+        order = [0, 1] if rng.random() < 0.5 else [1, 0]
+        for t in order:
+            out.append(['rvol', t])
+            if rng.random() < 0.5:
+                out.append(['read', t, rng.choice(['V', 'H', 'mu'] + (['z_vol', 'vol', 'F_vol', 'rho'] if derived else []))])
+        return out
+    ops += reads()
+    ops.append(rng.choice([['setT', rng.randrange(2), rng.choice(TS)], ['setflow', rng.randrange(2), 'g', rng.randrange(3), float(rng.choice([1, 3, 8]))],
+                           ['setphase', rng.randrange(2), rng.choice(PHS)], ['scale', rng.randrange(2), 2.0]]))
+    ops += reads()
+    if rng.random() < 0.4:
+        ops += [['unlink', rng.randrange(2)], ['setphase', rng.randrange(2), rng.choice(PHS)]] + reads()
+    for _ in range(rng.randint(0, 5)):
+        ops.append(gen_op(rng, derived))
+    return {'ops': ops}
+
+def scripted_pair(rng, derived=False):
+    """a stream and a second object derived from it (copy, flow proxy, proxy, or a phase view) diverge: the same
+    phase-dependent (or the same phase-independent) properties are read on the source, the pair is created, one side is
+    mutated, and the properties are read on the mutated side and then on the other side with nothing in between"""
+    new = gen_new(rng); new[5] = rng.choice([0, 2])
+    multi = len(new[1]) > 1
+    for r in new[1]: r[rng.randrange(3)] = float(rng.choice([1, 2, 3]))
+    kind = rng.choice(['copy', 'copy', 'flow_proxy', 'proxy', 'view' if multi else 'copy'])
+    pool = rng.choice([PHASE_PROPS, PHASE_PROPS, ['sigma', 'epsilon', 'Hvap']]) + (DERIVED if derived else [])
+    names = rng.sample(pool, min(len(pool), rng.randint(1, 3)))
+    ops = [new] + [['read', 0, n] for n in names]
+    ops.append([kind, 0, rng.choice(new[2])] if kind == 'view' else [kind, 0])
+    if rng.random() < 0.3:
+        ops += [['read', 1, n] for n in names]
+    side = rng.randrange(2)
+    ops.append(rng.choice([['setT', side, rng.choice(TS)], ['setP', side, rng.choice(PS)],
+                           ['setflow', side, rng.choice(new[2]), rng.randrange(3), float(rng.choice([1, 4, 8, F(1, 2)]))],
+                           ['scale', side, 2.0], ['setphase', side, rng.choice(PHS)]]))
+    ops += [['read', side, n] for n in names] + [['read', 1 - side, n] for n in names]
+    for _ in range(rng.randint(0, 5)):
+        ops.append(gen_op(rng, derived))
+    return {'ops': ops}
+
 def gen_scripted(rng, derived=False):
-    return (scripted_transfer if rng.random() < 0.5 else scripted_package_switch)(rng, derived)
+    return rng.choice([scripted_transfer, scripted_package_switch, scripted_link, scripted_pair])(rng, derived)
 
 DEFECT_5STEP = {'ops': [['new', [[1., 3., 0.]], 'l', 300., 101325., 0], ['proxy', 0], ['read', 0, 'h'], ['setT', 0, 320.],
                         ['read', 1, 'h'], ['setT', 0, 300.], ['read', 0, 'h']]}
